@@ -333,6 +333,33 @@ def run(rep, tier, seed):
                         dict(tokens="", source=para, want=ps[0].decode("utf-8", "replace"), got=[q.decode("utf-8", "replace") if q else None for q in ps])))
         else: ctx_ok += 1
     rep.cov["paragraphs_context_independent"] = ctx_ok
+    # reference definitions in their equivalent spellings: the title on the same line or on the next one (indented, after
+    # trailing blanks or a tab on the URL line), in double or single quotes, the URL bare or in angle brackets, the label in
+    # another case - link and image must render exactly as with the plainest spelling
+    rjobs, rmeta = [], []
+    for _ in range(30 if tier == "quick" else 1500):
+        lab = rng.choice(["two", "Ref Label", "x1"]); url = rng.choice(["http://b.com/", "http://b.com/p?a=1&b=2", "rel/p.html"])
+        tit = rng.choice(["Second title", "T & U", "it's"])
+        use = rng.choice(["See [%s] here." % lab, "See [text][%s] here." % lab, "Pic ![alt][%s] here." % lab, "See [text][%s] here." % lab.upper()])
+        plain = "%s\n\n[%s]: %s \"%s\"\n" % (use, lab, url, tit)
+        # (titles in parentheses are original-Markdown syntax that this implementation drops or rejects: not in its syntax guide, not generated)
+        q = rng.choice(['"%s"', "'%s'"]) % tit if "'" not in tit else '"%s"' % tit
+        u = rng.choice([url, "<%s>" % url])
+        variants = ["[%s]: %s %s" % (lab, u, q), "[%s]: %s\n    %s" % (lab, u, q), "[%s]: %s  \n    %s" % (lab, u, q), "[%s]: %s\t\n\t%s" % (lab, u, q),
+                    "[%s]:  %s   %s" % (lab, u, q), " [%s]: %s\n %s" % (lab, u, q)]
+        v = rng.choice(variants)
+        ext = E["notes"] | (E["smart"] if rng.random() < 0.5 else 0) | (COMPAT if rng.random() < 0.25 else 0)
+        rjobs.append((plain.encode(), "html", ext, 0)); rjobs.append((("%s\n\n%s\n" % (use, v)).encode(), "html", ext, 0))
+        rmeta.append((plain, "%s\n\n%s\n" % (use, v)))
+    rres = tchk.convert(rjobs)
+    nref = 0
+    for j, (plain, var) in enumerate(rmeta):
+        a, b = rres[2 * j], rres[2 * j + 1]
+        if a.ok() and b.ok() and a.out != b.out:
+            bad.append(("render-differs", "a reference definition written in an equivalent spelling renders differently from the plain one",
+                        dict(tokens="", source=var, want=a.out.decode("utf-8", "replace"), got=b.out.decode("utf-8", "replace"), plain=plain)))
+        else: nref += 1
+    rep.cov["reference_definition_spellings_agree"] = nref
     nb = blocks_part(rep, tier, rng, bad)
     # the delimiter rules: model/Ambidextrous.v == compiled function, and context independence on the compiled function
     from checks import ambi
@@ -370,6 +397,16 @@ def replay(rep, r):
         return ambi.replay(rep, r)
     c = r.get("case", r)
     rep.cov["samples"] = [c.get("tokens", "")[:200]]
+    if not c.get("tokens"):
+        # cases given as source text: a reference definition against its plain spelling, or a paragraph in its contexts
+        docs = [c["source"]] + ([c["plain"]] if c.get("plain") else [])
+        outs = tchk.convert([(d.encode(), "html", E["notes"] | E["smart"], 0) for d in docs])
+        for d, o in zip(docs, outs): print("---- source\n" + d + "---- html\n" + o.out.decode("utf-8", "replace"))
+        if len(outs) == 2 and outs[0].out != outs[1].out:
+            rep.violation(r.get("key", "render-differs"), "the two spellings render differently", r)
+        elif c.get("want") is not None and isinstance(c["want"], str) and outs[0].out.decode("utf-8", "replace").strip() != c["want"].strip() and len(outs) == 1:
+            print("---- recorded\n" + c["want"])
+        return
     hd = c["tokens"].split("|")[0].split()
     ext = (E["smart"] if hd[0] == "1" else 0) | (COMPAT if hd[1] == "1" else 0) | E["notes"]
     srcs, wants, outs = run_docs([c["tokens"]], [ext])
